@@ -17,6 +17,7 @@
     (DF (label*) (label*) v*)    DataFrame: index labels, column labels, cells row-major
   ops:  (eq eq x y)  (eq in x (L v*))  (eq pyeq x y)
         (eq eqr x y)   the raising reading `eqR`: `ok B:_` or `err <kind>`
+        (eq eqpinned x y)   `eqPinned` (the ndarray branch as it was before fix F6c): `ok B:_` or `err <kind>`
 -/
 import PygModel.EqR
 
@@ -93,6 +94,11 @@ def handle1 (op : String) (args : List Sexp) : Option String := do
   | "eqr", [a, b] =>
       let a ← ofSexp a; let b ← ofSexp b
       match eqR a b with
+      | .ok v => pure (bool v)
+      | .error e => pure ("err " ++ e.render)
+  | "eqpinned", [a, b] =>
+      let a ← ofSexp a; let b ← ofSexp b
+      match eqPinned a b with
       | .ok v => pure (bool v)
       | .error e => pure ("err " ++ e.render)
   | "pyeq", [a, b] =>
